@@ -18,7 +18,8 @@ RULE = ("operation histories over {push scope (4 layer names or none), pop, set/
 LEVEL_TEXT = ("Theorems over Context.v for every history: get-after-set, set/del/use_or_assign touch only the innermost scope, a scope's "
               "attributes vanish at pop and outer values reappear, del succeeds only in the owning scope, pop runs every cleanup of "
               "the scope in reverse registration order and removes the scope even when cleanups raise, and executed + pending cleanups "
-              "are conserved by every operation (exactly-once).  The model is compared with a real Context on exhaustive short and "
+              "are conserved by every operation (exactly-once); execute_steps leaves the caller's text/table, every other attribute and "
+              "the outer scopes as they were, whether or not a nested step fails.  The model is compared with a real Context on exhaustive short and "
               "random long histories; an independent layered-map reference is the oracle.")
 LEVEL_NOTE = "Trusted: Coq kernel, history replayer. The runner-side consequences (owner gets error, run fails) are C01/C03 theorems."
 EXHAUSTIVE = True
@@ -357,8 +358,11 @@ def suites(tier, seed):
             for inner in itertools.product([(False, False), (True, False), (False, True), (True, True)], repeat=2):
                 ex.append({"otext": otext, "otable": otable, "inner": [list(x) for x in inner], "failing": []})
                 ex.append({"otext": otext, "otable": otable, "inner": [list(x) for x in inner], "failing": [1]})
+                ex.append({"otext": otext, "otable": otable, "inner": [list(x) for x in inner], "failing": [0]})
     exec_suite = {"name": "execute_steps", "cases": ex, "impl": impl_exec_steps, "oracle": oracle_exec_steps,
                   "nontrivial": lambda c, o: c["otext"] or c["otable"], "exhaustive": True,
+                  "coq": {"header": HEADER, "in_ty": "(nat * nat * list nested)", "out_ty": "(list (nat * nat) * bool * (nat * nat))",
+                          "fn": "exec_case", "eqb": "exec_out_eqb", "enc": enc_exec, "shard": 400},
                   "bound": "outer step with/without text and table x two nested steps each with/without text and table x nested failure"}
     return [exec_suite, {"name": "histories", "cases": cases, "impl": impl_history_ids, "oracle": oracle_ids,
              "nontrivial": lambda c, o: any(x[0] == "popped" and x[1] for x in o["out"]) or sum(1 for op in c["ops"] if op[0] == "set") >= 2,
@@ -419,6 +423,27 @@ def impl_exec_steps(case):
     return obs
 
 
+def _code(v, outer_val):
+    """None -> 0, the outer step's value -> 1, nested step i's value -> 10 + i"""
+    if v is None:
+        return 0
+    if v == outer_val:
+        return 1
+    if isinstance(v, list):
+        return 10 + int(v[0][0][1:])
+    return 10 + int(v.split()[-1])
+
+
+def enc_exec(case, obs):
+    nested = "[%s]" % "; ".join("mkNested %d %d %s" % (10 + i if it else 0, 10 + i if itb else 0, "false" if i in case.get("failing", []) else "true")
+                                 for i, (it, itb) in enumerate(case["inner"]))
+    cin = "(%d, %d, %s)" % (1 if case["otext"] else 0, 1 if case["otable"] else 0, nested)
+    seen = "[%s]" % "; ".join("(%d, %d)" % (_code(t, u"outer text"), _code(tb, [[u"o"]])) for (_i, t, tb) in obs.get("inner_seen", []))
+    after = obs.get("after", [None, None])
+    cout = "(%s, %s, (%d, %d))" % (seen, "true" if obs.get("raised") else "false", _code(after[0], u"outer text"), _code(after[1], [[u"o"]]))
+    return cin, cout
+
+
 def oracle_exec_steps(case, obs):
     out = []
     if "before" not in obs:
@@ -426,8 +451,10 @@ def oracle_exec_steps(case, obs):
     failing = bool(case.get("failing"))
     if obs["raised"] != failing:
         out.append(("execute_steps raised=%s but nested failure=%s" % (obs["raised"], failing), "exec-steps-failure-propagation"))
-    if not failing and obs["after"] != obs["before"]:
-        out.append(("execute_steps did not restore the caller's text/table: before %s after %s" % (obs["before"], obs["after"]), "exec-steps-restore"))
+    if obs["after"] != obs["before"]:
+        out.append(("execute_steps (nested step %s) did not restore the caller's text/table: before %s after %s" % (
+            "failing" if failing else "passing", obs["before"], obs["after"]),
+            "exec-steps-restore" if not failing else "exec-steps-restore-after-failing-substep"))
     seen = obs.get("inner_seen", [])
     for (i, text, table) in seen:
         itext, itable = case["inner"][i]
